@@ -1,7 +1,9 @@
 package an
 
 import (
+	"go/constant"
 	"go/token"
+	"go/types"
 	"strconv"
 
 	"golang.org/x/tools/go/ssa"
@@ -186,6 +188,21 @@ func ArithSites(t *Terms) []ArithSite {
 						out = append(out, ArithSite{Kind: "usub", Instr: v, X: v.X, Y: v.Y,
 							Desc: t.Of(v.X) + " - " + t.Of(v.Y)})
 					}
+				case token.ADD, token.MUL:
+					// the terms read integers as mathematical integers; a sum or product with an operand
+					// that may be a constant near the top of the type's range wraps around for certain
+					if isUnsigned(v.Type()) {
+						for _, pair := range [][2]ssa.Value{{v.X, v.Y}, {v.Y, v.X}} {
+							if k := hugeConst(pair[0], 0); k != "" {
+								if c0, isC := pair[1].(*ssa.Const); isC && c0.Value != nil && c0.Value.ExactString() == "0" {
+									continue
+								}
+								out = append(out, ArithSite{Kind: "uwrap", Instr: v, X: pair[1], Y: pair[0],
+									Desc: t.Of(v.X) + " " + v.Op.String() + " " + t.Of(v.Y) + " with " + k})
+								break
+							}
+						}
+					}
 				case token.QUO, token.REM:
 					if isIntegral(v.Type()) {
 						if c, isC := v.Y.(*ssa.Const); isC && c.Value != nil && c.Value.ExactString() != "0" {
@@ -201,6 +218,11 @@ func ArithSites(t *Terms) []ArithSite {
 						continue
 					}
 					out = append(out, ArithSite{Kind: "conv", Instr: v, X: v.X, Desc: "unsigned(" + t.Of(v.X) + ")"})
+				} else if lossyConv(v) && decisionRelevant(v) {
+					if _, isC := v.X.(*ssa.Const); isC {
+						continue
+					}
+					out = append(out, ArithSite{Kind: "sconv", Instr: v, X: v.X, Desc: v.Type().String() + "(" + t.Of(v.X) + ")"})
 				}
 			case *ssa.IndexAddr:
 				if _, isC := v.Index.(*ssa.Const); isC {
@@ -229,4 +251,131 @@ func ArithSites(t *Terms) []ArithSite {
 		}
 	}
 	return out
+}
+
+// intSize is the size in bytes of an integral basic type on the 64-bit targets the module is built for.
+func intSize(tp types.Type) int {
+	b, ok := tp.Underlying().(*types.Basic)
+	if !ok {
+		return 8
+	}
+	switch b.Kind() {
+	case types.Int8, types.Uint8:
+		return 1
+	case types.Int16, types.Uint16:
+		return 2
+	case types.Int32, types.Uint32:
+		return 4
+	}
+	return 8
+}
+
+// lossyConv reports an integer conversion (other than signed→unsigned, which is the "conv" kind)
+// whose result can differ from its operand: unsigned→signed of the same or a smaller size, or a
+// narrowing one. The value model of the terms treats integer conversions as the identity, so a
+// decision taken on the result of such a conversion needs the operand proven in range.
+func lossyConv(v *ssa.Convert) bool {
+	if !isIntegral(v.Type()) || !isIntegral(v.X.Type()) {
+		return false
+	}
+	du, su := isUnsigned(v.Type()), isUnsigned(v.X.Type())
+	ds, ss := intSize(v.Type()), intSize(v.X.Type())
+	switch {
+	case du && !su:
+		return false // "conv"
+	case !du && su:
+		return ds <= ss
+	default:
+		return ds < ss
+	}
+}
+
+// convMax is the largest value of the conversion's result type (capped at MaxInt64).
+func convMax(tp types.Type) int64 {
+	bits := uint(8 * intSize(tp))
+	if !isUnsigned(tp) {
+		bits--
+	}
+	if bits >= 63 {
+		return 1<<63 - 1
+	}
+	return 1<<bits - 1
+}
+
+// decisionRelevant reports whether the value (through arithmetic, phis and further conversions)
+// reaches a comparison, an allocation size, an index or slice bound.
+func decisionRelevant(v ssa.Value) bool {
+	seen := map[ssa.Value]bool{}
+	var walk func(x ssa.Value) bool
+	walk = func(x ssa.Value) bool {
+		if seen[x] {
+			return false
+		}
+		seen[x] = true
+		refs := x.Referrers()
+		if refs == nil {
+			return false
+		}
+		for _, r := range *refs {
+			switch u := r.(type) {
+			case *ssa.BinOp:
+				switch u.Op {
+				case token.EQL, token.NEQ, token.LSS, token.LEQ, token.GTR, token.GEQ:
+					return true
+				}
+				if walk(u) {
+					return true
+				}
+			case *ssa.Phi:
+				if walk(u) {
+					return true
+				}
+			case *ssa.Convert:
+				if walk(u) {
+					return true
+				}
+			case *ssa.ChangeType:
+				if walk(u) {
+					return true
+				}
+			case *ssa.MakeSlice, *ssa.Slice, *ssa.IndexAddr, *ssa.Index:
+				return true
+			case *ssa.Call:
+				if b, ok := u.Call.Value.(*ssa.Builtin); ok && (b.Name() == "min" || b.Name() == "max") {
+					if walk(u) {
+						return true
+					}
+				}
+			}
+		}
+		return false
+	}
+	return walk(v)
+}
+
+// hugeConst reports (as text) a constant of at least 2^62 that v is, or may be through phis,
+// conversions and min/max, and "" when there is none within a small depth.
+func hugeConst(v ssa.Value, depth int) string {
+	if depth > 4 {
+		return ""
+	}
+	switch x := v.(type) {
+	case *ssa.Const:
+		if x.Value != nil && x.Value.Kind() == constant.Int {
+			if constant.Compare(x.Value, token.GEQ, constant.Shift(constant.MakeInt64(1), token.SHL, 62)) {
+				return "the constant " + x.Value.ExactString()
+			}
+		}
+	case *ssa.Phi:
+		for _, e := range x.Edges {
+			if s := hugeConst(e, depth+1); s != "" {
+				return s + " (through a merge)"
+			}
+		}
+	case *ssa.Convert:
+		return hugeConst(x.X, depth+1)
+	case *ssa.ChangeType:
+		return hugeConst(x.X, depth+1)
+	}
+	return ""
 }
